@@ -96,6 +96,8 @@ def make_check(op):
         reuse = bool(args.get("use")) and len(set(args["use"])) < len(args["use"])
         rec.nontrivial(layout != "independent" or reuse or op.name in INPLACE_KERNELS or case.get("second", False))
         rec.tag(layout, case["dtype"])
+        if case.get("zeros"):
+            rec.tag("exact_zeros")
 
         def verify(stage):
             for i, t in enumerate(ts):
@@ -158,6 +160,11 @@ def mut_case(draw, op):
     c = draw(ops.full_case(op))
     c["layout"] = draw(st.sampled_from(["independent", "views", "views", "alias"]))
     c["second"] = draw(st.booleans())
+    if draw(st.integers(0, 2)) == 0:
+        # exact zeros (and repeated values) are in every op's domain as far as mutation is concerned
+        for x in c["xs"]:
+            x["v"] = [0.0 if (j * 7 + len(x["v"])) % 3 == 0 else v for j, v in enumerate(x["v"])]
+        c["zeros"] = True
     return c
 
 
